@@ -234,13 +234,37 @@ def replay_file(path, quiet=False):
     return bool(hit), res
 
 
-def replay_fresh(path):
-    """Replay in a fresh interpreter; True if the violation reproduces."""
+def replay_fresh(path, search=0):
+    """Replay in a fresh interpreter; True if the violation reproduces.
+    search > 0 (witnesses of known findings only): if the exact replay does
+    not fail any more - the seam sequence shifts whenever /repo changes - the
+    same programs are re-run under up to `search` other schedule seeds."""
     env = dict(os.environ, PYTHONHASHSEED='0', DISKCACHE_VERIF='1')
-    p = subprocess.run([sys.executable, '-B', os.path.join(VERIF, 'vcheck'), 'replay', path],
-                       env=env, capture_output=True, text=True, timeout=600)
-    ok = p.returncode == 1 and 'REPRODUCED' in p.stdout and 'digest_match=True' in p.stdout
+    cmd = [sys.executable, '-B', os.path.join(VERIF, 'vcheck'), 'replay', path]
+    if search:
+        cmd += ['--search', str(search)]
+    p = subprocess.run(cmd, env=env, capture_output=True, text=True, timeout=900)
+    ok = p.returncode == 1 and '\nREPRODUCED' in '\n' + p.stdout and (search or 'digest_match=True' in p.stdout)
     return ok, p.stdout + p.stderr
+
+
+def replay_search(path, n):
+    """Witness scenario under other schedule seeds (same programs, faults, configuration)."""
+    doc = json.load(open(path))
+    mod = check_module(doc['property'])
+    exp = doc['expect']
+    for s in range(n):
+        case = copy.deepcopy(doc['case'])
+        case['seed'] = 7000000 + s
+        try:
+            res = mod.run_case(case)
+        except Exception:
+            continue
+        if any(v['rule'] == exp['rule'] and v['sig'] == exp['sig'] for v in res.get('violations', ())):
+            print('REPRODUCED property=%s expect=%s via-search schedule_seed=%d' % (doc['property'], vio_key(exp), case['seed']))
+            return True
+    print('NOT-REPRODUCED property=%s expect=%s (exact replay and %d other schedule seeds)' % (doc['property'], vio_key(exp), n))
+    return False
 
 
 # --------------------------------------------------------------------------
@@ -273,7 +297,7 @@ def run_check(pid, tier):
         if not w:
             continue
         wpath = os.path.join(VERIF, w)
-        ok, txt = replay_fresh(wpath)
+        ok, txt = replay_fresh(wpath, search=600)
         if ok:
             known_lines.append('KNOWN-FINDING: property=%s %s (%s; witness %s)' % (pid, k['what'], k.get('id', ''), w))
         else:
